@@ -5,7 +5,7 @@
 //! clause "completes after a bounded amount of writer progress even if producers never stop
 //! appending and the queue never becomes empty" is decided (a never-idle producer cannot be
 //! expressed in a terminating thread harness).
-use metrique_writer::sink::__verif_waker::{Handle, Request, Status};
+use metrique_writer::sink::__verif_waker::{Handle, Request, Requester, Status};
 use serde_json::json;
 use std::cell::Cell;
 use std::collections::{HashMap, VecDeque};
@@ -17,14 +17,20 @@ enum Ev {
     Push,
     Request,
     Pop,
-    /// the writer found the queue empty and reports what it popped since the last call
-    CallDrained,
+    /// the writer's drain loop ends because it found the queue empty: status `Drained` and the
+    /// count are latched now; the call to handle_waiting_wakers is a later event, so pushes and
+    /// flush requests can arrive in between
+    DrainEndsEmpty,
+    /// handle_waiting_wakers(latched status, latched count). The argument says what arrives while
+    /// the tracker's flush callback (stream.flush()) runs: 0 nothing, 1 a push followed by a flush
+    /// request, 2 a flush request only
+    Call(u8),
     /// push until the queue is full (a macro step, so that large capacities are reachable)
     Fill,
     /// 32 pops with a producer re-filling the queue after each (it never becomes empty)
     Burst32,
-    /// the drain loop's deadline check (every 32 pops) fires: handle_waiting_wakers(HitDeadline, n)
-    CallHitDeadline,
+    /// the drain loop's deadline check (every 32 pops) fires: status HitDeadline is latched
+    DrainHitsDeadline,
 }
 
 #[derive(Clone, Debug)]
@@ -43,13 +49,15 @@ struct World {
     queue: VecDeque<u64>,
     next_id: u64,
     pops_since_call: usize,
+    /// (drained?, count) latched by the end of the drain loop, consumed by the next Call
+    latched: Option<(bool, usize)>,
     reqs: Vec<(Req, Request)>,
     flushes: u64,
 }
 
 impl World {
     fn new(cap: usize) -> World {
-        World { cap, h: Handle::new(), queue: VecDeque::new(), next_id: 0, pops_since_call: 0, reqs: Vec::new(), flushes: 0 }
+        World { cap, h: Handle::new(), queue: VecDeque::new(), next_id: 0, pops_since_call: 0, latched: None, reqs: Vec::new(), flushes: 0 }
     }
     fn enabled(&self, max_reqs: usize) -> Vec<Ev> {
         let mut v = vec![Ev::Push];
@@ -59,17 +67,29 @@ impl World {
         if self.reqs.iter().filter(|(r, _)| !r.complete).count() < max_reqs {
             v.push(Ev::Request);
         }
-        if !self.queue.is_empty() {
-            v.push(Ev::Pop);
-            if self.pops_since_call < 64 {
-                v.push(Ev::Burst32);
+        match self.latched {
+            // the drain loop has ended: the writer's next step is the call
+            Some(_) => {
+                v.push(Ev::Call(0));
+                if self.reqs.iter().filter(|(r, _)| !r.complete).count() < max_reqs {
+                    v.push(Ev::Call(1));
+                    v.push(Ev::Call(2));
+                }
             }
-            // the real drain loop looks at the clock after every 32nd pop
-            if self.pops_since_call > 0 && self.pops_since_call % 32 == 0 {
-                v.push(Ev::CallHitDeadline);
+            None => {
+                if !self.queue.is_empty() {
+                    v.push(Ev::Pop);
+                    if self.pops_since_call < 64 {
+                        v.push(Ev::Burst32);
+                    }
+                    // the real drain loop looks at the clock after every 32nd pop
+                    if self.pops_since_call > 0 && self.pops_since_call % 32 == 0 {
+                        v.push(Ev::DrainHitsDeadline);
+                    }
+                } else {
+                    v.push(Ev::DrainEndsEmpty);
+                }
             }
-        } else {
-            v.push(Ev::CallDrained);
         }
         v
     }
@@ -103,7 +123,7 @@ impl World {
             }
             Ev::Request => {
                 let rq = self.h.request_flush();
-                self.reqs.push((Req { pending_ids: self.queue.iter().copied().collect(), collected: false, pops_since_collected: 0, calls_since_collected: 0, complete: false }, rq));
+                self.add_request(rq);
                 None
             }
             Ev::Pop => {
@@ -116,7 +136,18 @@ impl World {
                 }
                 None
             }
-            Ev::CallDrained => self.call(Status::Drained),
+            Ev::DrainEndsEmpty => {
+                self.latched = Some((true, std::mem::take(&mut self.pops_since_call)));
+                None
+            }
+            Ev::DrainHitsDeadline => {
+                self.latched = Some((false, std::mem::take(&mut self.pops_since_call)));
+                None
+            }
+            Ev::Call(inject) => {
+                let (drained, count) = self.latched.take().expect("enabled only when latched");
+                self.call(if drained { Status::Drained } else { Status::HitDeadline }, count, inject)
+            }
             Ev::Burst32 => {
                 for _ in 0..32 {
                     self.pop_one();
@@ -124,14 +155,36 @@ impl World {
                 }
                 None
             }
-            Ev::CallHitDeadline => self.call(Status::HitDeadline),
         }
     }
-    fn call(&mut self, status: Status) -> Option<(String, String)> {
-        let count = std::mem::take(&mut self.pops_since_call);
+    fn add_request(&mut self, rq: Request) {
+        self.reqs.push((Req { pending_ids: self.queue.iter().copied().collect(), collected: false, pops_since_collected: 0, calls_since_collected: 0, complete: false }, rq));
+    }
+    fn call(&mut self, status: Status, count: usize, inject: u8) -> Option<(String, String)> {
         let flushed = Cell::new(false);
         let waiting_before = self.h.waiting();
-        self.h.handle_waiting_wakers(self.cap, || flushed.set(true), status, count);
+        let requester: Requester = self.h.requester();
+        let arrived: std::cell::RefCell<Option<Request>> = std::cell::RefCell::new(None);
+        self.h.handle_waiting_wakers(
+            self.cap,
+            || {
+                // stream.flush() is running: producers are free to append and to request flushes
+                flushed.set(true);
+                if inject >= 1 {
+                    *arrived.borrow_mut() = Some(requester.request_flush());
+                }
+            },
+            status,
+            count,
+        );
+        // book-keeping for what arrived during the flush (only if the callback ran)
+        let arrived = arrived.into_inner();
+        if let Some(rq) = arrived {
+            if inject == 1 {
+                self.push_one();
+            }
+            self.add_request(rq);
+        }
         if flushed.get() {
             self.flushes += 1;
         }
@@ -184,11 +237,12 @@ impl World {
         }
         out
     }
-    fn key(&self) -> (usize, usize, usize, usize, Vec<(Vec<u64>, bool, u64, bool)>) {
+    fn key(&self) -> (usize, usize, Option<(bool, usize)>, usize, usize, Vec<(Vec<u64>, bool, u64, bool)>) {
         let base = self.queue.front().copied().unwrap_or(self.next_id);
         (
             self.queue.len(),
             self.pops_since_call,
+            self.latched,
             self.h.waiting(),
             self.h.entries_before_wake(),
             self.reqs.iter().filter(|(r, _)| !r.complete).map(|(r, _)| (r.pending_ids.iter().map(|x| x - base).collect(), r.collected, r.pops_since_collected, r.complete)).collect(),
@@ -274,8 +328,8 @@ fn main() {
     rep.set("histories_with_completed_requests", c);
     rep.set("max_pops_between_collection_and_completion", mp);
     rep.set("exhaustive", true);
-    rep.set("explanation", "DFS with a canonical state key (queue length, pops since the last call, the real tracker's waiting count and entries_before_wake, per-request bookkeeping) over push / fill / flush-request / pop / 32-pop burst with a refilling producer / handle_waiting_wakers(Drained) when the queue is empty / handle_waiting_wakers(HitDeadline) after a positive multiple of 32 pops; the real WakerTracker is rebuilt by replaying the history for every transition. Invariants S1 (completion only after everything pushed before the request left the queue, with a stream flush), S2 (a Drained call completes collected requests), L1 (bounded response without the queue ever becoming empty; requests get collected), and will_progress_on_drained_queue() == 'a collected request waits'.");
-    rep.sample(json!({"capacity": 2, "history": ["Fill", "Burst32", "Request", "CallHitDeadline", "Burst32", "CallHitDeadline"], "expect": "request collected by the first call and completed by the second although the queue never became empty"}));
+    rep.set("explanation", "DFS with a canonical state key (queue length, pops since the last call, the real tracker's waiting count and entries_before_wake, per-request bookkeeping) over push / fill / flush-request / pop / 32-pop burst with a refilling producer / end of the drain loop (status Drained latched when the queue is empty, HitDeadline after a positive multiple of 32 pops) / the later call handle_waiting_wakers(latched status, count) with nothing, a push+request or a request arriving during its stream flush; the real WakerTracker is rebuilt by replaying the history for every transition. Invariants S1 (completion only after everything pushed before the request left the queue, with a stream flush), S2 (a Drained call completes collected requests), L1 (bounded response without the queue ever becoming empty; requests get collected), and will_progress_on_drained_queue() == 'a collected request waits'.");
+    rep.sample(json!({"capacity": 2, "history": ["Fill", "Burst32", "DrainHitsDeadline", "Request", "Call(0)", "Burst32", "DrainHitsDeadline", "Call(0)"], "expect": "request collected by the first call and completed by the second although the queue never became empty"}));
     rep.assume("the abstract ring buffer (displace-oldest) stands in for crossbeam's ArrayQueue; the tracker only sees counts, as in the real writer loop");
     rep.finish();
 }
